@@ -46,7 +46,9 @@ def standard(ctx, props, harness=None, obl=None, cases=None, trusted=(), assumpt
         res = ctx.eval_cases(os.path.join(ctx.work, cfile), cfile)
         if res is not None:
             n = res.get(ctx.pid.lower() + "_ncases", "?")
-            for name, label in defs:
+            for d in defs:
+                name, label = d[0], d[1]
+                idxfile_d = d[2] if len(d) > 2 else idxfile
                 mism = res.get(name)
                 if mism == "[]":
                     ctx.obligations.append(("corr:%s (%s cases in file)" % (label, n), True, "no mismatch"))
@@ -54,8 +56,8 @@ def standard(ctx, props, harness=None, obl=None, cases=None, trusted=(), assumpt
                     ctx.obligations.append(("corr:" + label, False, "mismatch indices %s" % (mism or "missing")[:200]))
                     first = None
                     i = first_index(mism)
-                    if i is not None and idxfile and os.path.exists(os.path.join(ctx.work, idxfile)):
-                        lines = open(os.path.join(ctx.work, idxfile)).read().split("\n")
+                    if i is not None and idxfile_d and os.path.exists(os.path.join(ctx.work, idxfile_d)):
+                        lines = open(os.path.join(ctx.work, idxfile_d)).read().split("\n")
                         if i < len(lines):
                             first = lines[i]
                     ctx.broken.append(("correspondence", name, {"label": label, "first_mismatch": first, "indices": (mism or "")[:400]}))
